@@ -117,11 +117,16 @@ class MatchGen:
         return out
 
     def range_pat(self, a, b, t, hi):
+        # numbers without a type suffix are patterns of every integer type (a range needs both ends of one kind:
+        # two non-negative or two negative numbers)
+        sfx = t if self.rng.random() < 0.65 else ""
         if a == b and self.rng.random() < 0.7:
-            return (int_text(a, t), ["int", a])
+            return (int_text(a, sfx), ["int", a])
         if b < hi and self.rng.random() < 0.5:
-            return (f"{int_text(a, t)}..{int_text(b + 1, t)}", ["range", a, b])
-        return (f"{int_text(a, t)}..={int_text(b, t)}", ["range", a, b])
+            s2 = sfx if (a >= 0) == (b + 1 >= 0) else t
+            return (f"{int_text(a, s2)}..{int_text(b + 1, s2)}", ["range", a, b])
+        s2 = sfx if (a >= 0) == (b >= 0) else t
+        return (f"{int_text(a, s2)}..={int_text(b, s2)}", ["range", a, b])
 
     def struct_pat(self, t, fields):
         """fields: [(name, (text, ast))]; wildcard fields may be dropped in favour of `..`"""
